@@ -623,7 +623,8 @@ class Spider(Box):
         :align: center
     """
     def __init__(self, n_legs_in, n_legs_out, dim):
-        dim = dim if isinstance(dim, Dim) else Dim(dim)
+        dim = dim if isinstance(dim, Dim)\
+            else Dim.upgrade(dim) if isinstance(dim, Ty) else Dim(dim)
         if len(dim) > 1:
             raise ValueError(
                 "Spider boxes can only have len(dim) <= 1, "
